@@ -481,8 +481,9 @@ def analyse(ck):
         i_hi, i_lo = first_idx(a[1]), first_idx(a[2])
         ok_eg = (P.const_of(a[0]) == TWO32 and isinstance(i_hi, tuple) and i_hi[0] == "bin" and i_hi[1] == "Mul" and 2 in (P.const_of(i_hi[2]), P.const_of(i_hi[3]))
                  and i_lo == ("bin", "Add", i_hi, ("c", 1, None)))
-        ctrlk = [c[1] for c in eg[0].ctrl if c[0] == "closure"]
-        ok_eg = ok_eg and ctrlk == ["map", "from_fn"]
+        # once per digest (the outer map(..).collect(), seen as a loop over the swapped vector) and once per limb (array::from_fn)
+        ctrlk = ["loop" if c[0] == "loop" else c[1] for c in eg[0].ctrl if c[0] in ("closure", "loop")]
+        ok_eg = ok_eg and ctrlk in (["map", "from_fn"], ["loop", "from_fn"])
     ob.add({"C31"}, ok_eg, "TERM", "gadget/sort/egress", "egress: limb j = halves[2j] * 2^32 + halves[2j+1] for every digest of the (swapped) vector", eg[0].loc if eg else loc, [T.show(z, maxdepth=4)[:200] for e in eg for z in e.args[1:]])
     return ob
 
